@@ -225,7 +225,7 @@ def reduction_candidates(spec):
                 yield "conn %d: %s" % (conn["id"], desc), c
 
 
-def minimise(check_fn, spec, target_key, budget_s=60, log=None):
+def minimise(check_fn, spec, target_key, budget_s=60, log=None, extra=None):
     """greedy delta debugging: accept any simpler candidate for which check_fn(candidate) still yields a
     violation with key == target_key"""
     t0 = time.time()
@@ -236,10 +236,11 @@ def minimise(check_fn, spec, target_key, budget_s=60, log=None):
     trace = []
     while improved and time.time() - t0 < budget_s:
         improved = False
-        for desc, cand in reduction_candidates(cur):
+        import itertools
+        for desc, cand in itertools.chain(extra(cur) if extra else (), reduction_candidates(cur)):
             if time.time() - t0 > budget_s:
                 break
-            if spec_size(cand) >= spec_size(cur) and "policy" not in desc and "=" not in desc and "->" not in desc:
+            if json.dumps(cand, sort_keys=True) == json.dumps(cur, sort_keys=True):
                 continue
             tried += 1
             try:
@@ -316,7 +317,8 @@ def triage(prop, lane, spec, viol, findings, min_budget):
             raise
         if key not in keys2:
             return {"kind": "known", "kf": f.get("id"), "what": f.get("what"), "key": key}
-    small, mstats = minimise(lambda s: check_keys(prop, lane, s), spec, key, budget_s=min_budget)
+    small, mstats = minimise(lambda s: check_keys(prop, lane, s), spec, key, budget_s=min_budget,
+                             extra=getattr(prop, "reduction_candidates", None))
     return {"kind": "violation", "key": key, "spec": small, "min": mstats, "orig_digest": spec_digest(spec)}
 
 
@@ -554,9 +556,11 @@ def run_batch(pid, tier, batch_seed, nlanes=None, budget_s=None, count=None):
             agg["last_idx"] = lo["last_idx"] if agg["last_idx"] is None else max(agg["last_idx"], lo["last_idx"])
     # report
     exit_code = 0
-    for k in sorted(agg["known"]):
-        v = agg["known"][k]
-        print("KNOWN-FINDING: property=%s %s %s (hit %d times in this batch)" % (pid, k, v["what"], v["count"]))
+    for f in load_known_findings():
+        if f.get("property") != pid:
+            continue
+        hit = agg["known"].get(f.get("id"), {"count": 0})["count"]
+        print("KNOWN-FINDING: property=%s %s %s (attributed %d times in this batch)" % (pid, f.get("id"), f["what"], hit))
     # violations: write replay, confirm by replay in a fresh process
     seen = set()
     n_viol = 0
